@@ -22,6 +22,8 @@ pub enum Domain {
 #[derive(Clone, Debug, Default)]
 pub struct Monitors {
     pub model: bool,
+    /// with `model`: only report error-kind mismatches (C12); other divergences just stop expansion
+    pub model_only_kinds: bool,
     pub wellformed: bool,
     pub consistency: bool,
     pub errpaths: bool,
@@ -141,6 +143,12 @@ impl TreeSpace {
         }
         // documented non-termination: copying / moving a directory into its own subtree
         if let Op::CopyDir(p, q) | Op::MoveDir(p, q) = op {
+            if is_within(q, p) && p != q {
+                return false;
+            }
+        }
+        if let Op::CopyDir(p, q) | Op::MoveDir(p, q) | Op::CopyFile(p, q) | Op::MoveFile(p, q) = op {
+            // (move_file on a directory is a rename on PhysicalFS and takes the subtree along)
             if is_within(q, p) && p != q {
                 return false;
             }
@@ -315,17 +323,24 @@ impl TreeSpace {
             }
             if let Some((tail, what)) = bad {
                 diverged = true;
+                if !self.mon.model_only_kinds || tail.starts_with("exp=Err(") {
                 vio.push((
                     format!("{}|{}", head, tail),
                     format!("{} on {} ({}): {}", op.show(), cfgl, tcl, what),
                     json!({"expected": format!("{:?}", exp), "observed": out.short(), "after": after.dump()}),
                 ));
+                }
             }
         }
 
         if self.mon.wellformed {
             let mut check = |which: &str, bsnap: &Snap, asnap: &Snap, prefix: &str| {
+                // blame the call that creates the defect: what already held before is not re-reported
+                let old: Vec<(String, String)> = wellformed_violations(bsnap, bsnap, prefix);
                 for (kind, what) in wellformed_violations(bsnap, asnap, prefix) {
+                    if old.contains(&(kind.clone(), what.clone())) {
+                        continue;
+                    }
                     vio.push((
                         format!("{}|{}@{}", head, kind, which),
                         format!("after {} on {}: {} [{}]", op.show(), cfgl, what, which),
@@ -342,9 +357,13 @@ impl TreeSpace {
         }
 
         if self.mon.consistency {
+            let old = consistency_violations_static(before);
             for (kind, what) in consistency_violations(&b.root, after) {
+                if old.contains(&(kind.clone(), what.clone())) {
+                    continue;
+                }
                 vio.push((
-                    format!("{}|{}|{}", cfgl, kind, op.name()),
+                    format!("{}|{}", head, kind),
                     format!("after {} on {}: {}", op.show(), cfgl, what),
                     json!({"observed": out.short(), "after": after.dump()}),
                 ));
@@ -408,7 +427,11 @@ impl TreeSpace {
         }
 
         if self.mon.markers_hidden {
+            let old = marker_violations(before);
             for what in marker_violations(after) {
+                if old.contains(&what) {
+                    continue;
+                }
                 vio.push((
                     format!("{}|marker-visible|{}", cfgl, what.0),
                     format!("after {} on {}: {}", op.show(), cfgl, what.1),
@@ -536,6 +559,16 @@ pub fn wellformed_violations(before: &Snap, after: &Snap, _prefix: &str) -> Vec<
 
 /// C05 invariant on one snapshot.
 pub fn consistency_violations<P: PathApi>(root: &P, s: &Snap) -> Vec<(String, String)> {
+    let mut v = consistency_violations_static(s);
+    if s.panic.is_some() {
+        return v;
+    }
+    v.extend(walk_violations(Some(root), s));
+    v
+}
+
+/// The part of the C05 invariant that needs nothing but the snapshot (root walk included).
+pub fn consistency_violations_static(s: &Snap) -> Vec<(String, String)> {
     let mut v = vec![];
     if s.panic.is_some() {
         return v;
@@ -595,9 +628,18 @@ pub fn consistency_violations<P: PathApi>(root: &P, s: &Snap) -> Vec<(String, St
             }
         }
     }
-    // walks from every directory
+    v.extend(walk_violations(None::<&vfs::VfsPath>, s));
+    v
+}
+
+/// walk_dir from the root (snapshot) or, with a live root, from every other directory.
+fn walk_violations<P: PathApi>(root: Option<&P>, s: &Snap) -> Vec<(String, String)> {
+    let mut v = vec![];
     for (p, o) in &s.entries {
         if o.is_dir != Ok(true) {
+            continue;
+        }
+        if p.is_empty() != root.is_none() {
             continue;
         }
         let items: Vec<String> = if p.is_empty() {
@@ -609,7 +651,7 @@ pub fn consistency_violations<P: PathApi>(root: &P, s: &Snap) -> Vec<(String, St
                 }
             }
         } else {
-            match at(root, p).and_then(|x| x.walk()) {
+            match at(root.unwrap(), p).and_then(|x| x.walk()) {
                 Ok(items) => items.into_iter().map(|i| i.map(|c| c.as_string()).unwrap_or_else(|_| "<ERR>".into())).collect(),
                 Err(_) => {
                     v.push(("walk-failed".into(), format!("walk_dir({:?}) failed on a directory", p)));
@@ -845,13 +887,15 @@ impl Space for TreeSpace {
             e.transitions += 1;
             let (vs, next_model, diverged) = self.check_step(&b, op, &out, &log, &before, &before_raw, &after, &after_raw, model, &deep_before);
             for (sig, summary, extra) in vs {
-                let full = self.want_full(&sig);
-                e.violations.push(Violation {
-                    property: self.property.clone(),
-                    signature: sig,
-                    summary,
-                    replay: if full { self.replay_json(st.init, &st.hist, Some(op), extra) } else { Value::Null },
-                });
+                *e.vio_counts.entry(sig.clone()).or_insert(0) += 1;
+                if self.want_full(&sig) {
+                    e.violations.push(Violation {
+                        property: self.property.clone(),
+                        signature: sig,
+                        summary,
+                        replay: self.replay_json(st.init, &st.hist, Some(op), extra),
+                    });
+                }
             }
             let key = self.key_of(&after, &after_raw);
             let changed = key != st.key;
